@@ -713,7 +713,18 @@ impl C12 {
                     if cx.verbose {
                         eprintln!("instance error {:?} on {} user {:?}", e, sub.label, user);
                     }
-                    cx.inconclusive(&format!("instance-error:{}", format!("{:?}", e).chars().take(40).collect::<String>()));
+                    let es: String = format!("{:?}", e).chars().take(40).collect();
+                    if sub.generated {
+                        // a generated font is well-formed by construction and was read back by the
+                        // independent reader: refusing it means the variation data was not evaluated
+                        cx.violation(
+                            "instance-refused",
+                            &format!("well-formed-font-refused:{}", normalise_digits(&es)),
+                            witness(sub, &user, &[], format!("variations::instance returned Err({}) for a well-formed generated font", es), vec![("ast", J::s(format!("{:?}", sub.vf).chars().take(4000).collect::<String>()))]),
+                        );
+                    } else {
+                        cx.inconclusive(&format!("instance-error:{}", es));
+                    }
                 }
                 Some(Ok((out, tuple))) => {
                     let t: Vec<i16> = tuple.iter().map(|v| v.raw_value()).collect();
